@@ -147,6 +147,10 @@ class Translator:
     def _root_qname(self, node, filt):
         name = node.get('name')
         if name is None: return None
+        if filt.endswith('::'):
+            # broad namespace filter such as 'sqf::': clang starts dumping at the first declaration whose qualified
+            # name contains the filter, i.e. at the members of that namespace
+            return filt + name
         if filt.endswith('::' + name) or filt == name:
             return filt
         # the filter matched a prefix; try to find the position of name inside filter
@@ -224,7 +228,8 @@ class Translator:
             self.aliases[qprefix + '::' + node['name']] = target
         if kind in ('FunctionDecl', 'CXXMethodDecl', 'CXXConstructorDecl', 'CXXDestructorDecl', 'CXXConversionDecl'):
             if any(c.get('kind') == 'CompoundStmt' for c in node.get('inner', [])) and \
-               not (parent is not None and parent.get('kind') == 'FunctionTemplateDecl' and 'mangledName' not in node):
+               not (parent is not None and parent.get('kind') == 'FunctionTemplateDecl' and 'mangledName' not in node) and \
+               not (parent is not None and parent.get('kind') == 'CXXRecordDecl' and parent.get('definitionData', {}).get('isLambda')):
                 self.fn_nodes.append(node)
         for c in node.get('inner', []):
             if isinstance(c, dict) and c:
@@ -332,6 +337,8 @@ class Translator:
             s = tnode_or_str.get('desugaredQualType') or tnode_or_str.get('qualType')
         else:
             s = tnode_or_str
+        m = re.match(r"^auto \((.*)\)( const)?( noexcept)? -> (.+)$", s)
+        if m: s = '%s (%s)%s' % (m.group(4), m.group(1), m.group(2) or '')
         # libstdc++ spells the element type of a container through allocator traits in some signatures
         s = re.sub(r"(?:typename )?__gnu_cxx::__alloc_traits<std::allocator<(.+)>, \1>::(?:value_type|reference|const_reference)", r"\1", s)
         try:
@@ -579,7 +586,18 @@ class Translator:
     def fn_params(self, node):
         return [p for p in node.get('inner', []) if p.get('kind') == 'ParmVarDecl']
 
+    def _is_static_member(self, node):
+        seen = 0
+        while node is not None and seen < 6:
+            if node.get('storageClass') == 'static': return True
+            p = node.get('previousDecl')
+            node = self.decl.get(p) if p else None
+            seen += 1
+        return False
+
     def fn_is_method(self, node):
+        if node.get('_lambda_free'): return False
+        if self._is_static_member(node): return False
         return node['kind'] in ('CXXMethodDecl', 'CXXConstructorDecl', 'CXXDestructorDecl', 'CXXConversionDecl') and node.get('storageClass') != 'static'
 
     def fn_class_qname(self, node):
